@@ -5,6 +5,7 @@ import (
 	"os"
 	"path/filepath"
 	"strings"
+	"time"
 
 	eswriter "github.com/siglens/siglens/pkg/es/writer"
 	"github.com/valyala/fasthttp"
@@ -54,3 +55,14 @@ func filesOp(raw json.RawMessage) (interface{}, error) {
 }
 
 func init() { Register("files", filesOp) }
+
+func sleepOp(raw json.RawMessage) (interface{}, error) {
+	var a struct {
+		Ms int `json:"ms"`
+	}
+	_ = json.Unmarshal(raw, &a)
+	time.Sleep(time.Duration(a.Ms) * time.Millisecond)
+	return nil, nil
+}
+
+func init() { Register("sleep", sleepOp) }
